@@ -14,12 +14,13 @@ pub mod c11;
 pub mod c12;
 pub mod c13;
 pub mod c14;
+pub mod c15;
 pub mod c16;
 pub mod c17;
 pub mod c18;
 pub mod c19;
 
-pub static ALL: &[&PropDef] = &[&c01::DEF, &c02::DEF, &c03::DEF, &c04::DEF, &c05::DEF, &c06::DEF, &c07::DEF, &c08::DEF, &c09::DEF, &c10::DEF, &c11::DEF, &c12::DEF, &c13::DEF, &c14::DEF, &c16::DEF, &c17::DEF, &c18::DEF, &c19::DEF];
+pub static ALL: &[&PropDef] = &[&c01::DEF, &c02::DEF, &c03::DEF, &c04::DEF, &c05::DEF, &c06::DEF, &c07::DEF, &c08::DEF, &c09::DEF, &c10::DEF, &c11::DEF, &c12::DEF, &c13::DEF, &c14::DEF, &c15::DEF, &c16::DEF, &c17::DEF, &c18::DEF, &c19::DEF];
 
 pub fn find(id: &str) -> Option<&'static PropDef> {
     ALL.iter().copied().find(|p| p.id.eq_ignore_ascii_case(id))
